@@ -309,7 +309,8 @@ def gen_case(rnd, tier):
         case = hs.gen_build(rnd, maxkeys=70, bulk=True)
     else:
         case = hs.gen_build(rnd, maxkeys=10 if tier == "quick" else 18,
-                            kind=rnd.choice(["adv", "adv", "fix3", "chain", "nibbly", "k32", "adv", "fix3", "chain", "nibbly", "k32", "k40"]))
+                            kind=rnd.choice(["adv", "adv", "fix3", "chain", "nibbly", "k32", "adv", "fix3", "chain", "nibbly", "k32", "k40",
+                                             "adv", "adv", "fix3", "chain", "nibbly", "k32", "adv", "fix3", "chain", "nibbly", "k32", "k40", "k200", "k600"]))
     case["pseed"] = rnd.randrange(1 << 30)
     case["cache"] = bool(rnd.randrange(2))
     case["root_via"] = rnd.choice(["traverse", "traverse", "traverse_from", "kept_root"])
@@ -321,7 +322,7 @@ def gen_case(rnd, tier):
         keys = set()
         for op in case["hist"]:
             hh._track(op, keys)
-        universe = gen.KeyUniverse(rnd, case["universe"] if case["universe"] not in ("k32", "k40", "k200") else "adv")
+        universe = gen.KeyUniverse(rnd, case["universe"] if case["universe"] not in ("k32", "k40", "k200", "k600") else "adv")
         pool = gen.value_pool(rnd)
         for at in range(0, 60):
             if rnd.random() < pmut and len(muts) < 30:
